@@ -132,6 +132,21 @@ TOpen ==
      /\ CheckMatch(e.res = "ok" => e.json_eq, e, "JsonEqualToo", info)
   /\ Adv /\ UNCHANGED packed
 
+\* ------------------------------------------------- forged clear header of an encrypted pack
+\* the header is outside the encryption: a sender planted there by whoever relays the message must not replace the one
+\* sealed in the ciphertext - what a recipient opens is the original slate from the original sender, or nothing
+TForgedOpen ==
+  /\ IsEv("forged_open")
+  /\ LET e == E IN
+     IF e.c \notin DOMAIN packed THEN CheckMatch(FALSE, e, "OpenOfUnknownCase", "") ELSE
+     LET c == packed[e.c]
+         info == [by |-> e.by, res |-> e.res, same |-> e.same, sender |-> e.sender, form |-> e.form, edit |-> e.edit] IN
+     /\ Check(ResClass(e.res) = "ok" => (e.same /\ ObsSender(e) = c.snd), "OpenedIsOriginal", e, "forged:" \o e.edit \o ":" \o e.form, info)
+     /\ Check(e.res # "panic", "OpenedIsOriginal", e, "forged:panic:" \o e.form, info)
+     \* Layer M: the pinned code reads the header, decrypts, and overwrites sender and recipients with the sealed ones
+     /\ CheckMatch(ResClass(e.res) = "ok", e, "ForgedHeaderOpens", info)
+  /\ Adv /\ UNCHANGED packed
+
 \* ----------------------------------------------------------------- edits
 LabelOf(j) == Lbl(j.k, j.r, j.r2, j.o, j.n, j.eq)
 LKey(e) == LabelKey(e.form, LabelOf(e.lbl))
@@ -162,12 +177,12 @@ TEdits ==
   /\ Adv /\ UNCHANGED packed
 
 \* ---- anything else: observe only ------------------------------------------
-Known == {"keys", "pack", "open", "edits"}
+Known == {"keys", "pack", "open", "edits", "forged_open"}
 TOther == /\ l <= Len(Rec) /\ Rec[l].ev \notin Known
           /\ Adv /\ UNCHANGED packed
 
 TInit == l = 1 /\ packed = <<>>
-TNext == TKeys \/ TPack \/ TOpen \/ TEdits \/ TOther
+TNext == TKeys \/ TPack \/ TOpen \/ TForgedOpen \/ TEdits \/ TOther
 TSpec == TInit /\ [][TNext]_tvars
 
 Consumed == IF TLCGet("stats").diameter - 1 = Len(Rec) THEN PrintT(<<"CONSUMED", Len(Rec)>>)
